@@ -164,10 +164,10 @@ def run(ctx: Ctx):
     fbn = need(qtype, "from_bin")
     o = analyse(ctx, fbn, {fbn.params[1]: Qual("LE")}, False)
     report(ctx, fbn, o, "Qtype.from_bin(LE)")
-    check_extension_ops(ctx, qtype)
-    check_constants(ctx)
-    check_const_to_qtype(ctx)
-    check_nested_decoding(ctx)
+    ctx.section(check_extension_ops, ctx, qtype)
+    ctx.section(check_constants, ctx)
+    ctx.section(check_const_to_qtype, ctx)
+    ctx.section(check_nested_decoding, ctx)
     # module state in the types package (constant caches etc.)
     an = fx.effects(ctx)
     n = 0
